@@ -24,15 +24,17 @@ def check(ctx):
             f = C.own_method(meth)
             V = FuncView(ctx, f, exc="calls")
             rf = V.call_nodes("self.refresh")
-            dt = V.tests(lambda t, var=var: dotted(t) == var)
-            gt = V.tests(lambda t: dotted(t) == "self.refreshable")
-            ok = bool(rf) and bool(dt) and bool(gt) and V.dominated_by_edge(rf, dt[0], "T") and V.dominated_by_edge(rf, gt[0], "T")
+            dt = V.ptests(var)
+            gt = V.ptests("self.refreshable")
+            # the refresh runs exactly when data arrived / bytes were accepted and the connection is refreshable: those two
+            # conditions and no other, and every such path gets to the refreshable test (logging branches rejoin)
+            ok = bool(rf) and bool(dt) and bool(gt) and all(V.facts(r) == {var, "self.refreshable"} for r in rf)
             if ok:
-                # the only tests between the data test and the refresh are the refreshable test (and logging/wlog tests that rejoin)
                 cfg = V.cfg
-                ok = cfg.always_reaches([b for b, lab in cfg.succ[dt[0].id] if lab == "T"], [gt[0].id],
-                                        ends=[cfg.exit.id]) and gt[0].id in cfg.reachable([b for b, lab in cfg.succ[dt[0].id] if lab == "T"][0])
-                rets = [n for n in cfg.nodes if n.kind == "return" and n.id in cfg.reachable(dt[0].id)]
+                t0, l0 = dt[0]
+                start = [b for b, lab in cfg.succ[t0.id] if lab == l0]
+                esc = cfg.reachable(start, removed_nodes=[g.id for g, _ in gt], labels_block=("exc", "raise")) if start else {cfg.exit.id}
+                ok = cfg.exit.id not in esc
             ctx.check(ok, "T12-refresh", f, "%s.%s: if %s: ... if self.refreshable: self.refresh()" % (cn, meth, var),
                       "activity on the connection does not restart its idle period in %s.%s: an active connection is closed "
                       "at the idle timeout" % (cn, meth))
@@ -48,18 +50,22 @@ def check(ctx):
         C = ctx.cls("http.serving", cn)
         f = C.own_method("serviceConnects")
         V = FuncView(ctx, f)
-        t = V.tests(lambda t: src(t).replace("(", "").replace(")", "") == "ix.timeout > 0.0 and ix.timer.expired")
         closes = V.call_nodes(("self.closeConnection", "self.servant.removeIx", "self.servant.closeIx"))
-        cut = V.tests(lambda t: dotted(t) == "ix.cutoff")
-        idle = [c for c in closes if not (cut and V.dominated_by_edge([c], cut[0], "T"))]
-        ok = bool(t) and bool(idle) and all(V.dominated_by_edge([c], t[0], "T") for c in idle)
+        # every close that is not the cut-off close holds both conditions on every path to it (any spelling of the guard,
+        # including a predicate method that returns exactly this conjunction)
+        idle = [c for c in closes if "ix.cutoff" not in V.facts(c)]
+        ok = bool(idle) and all({"ix.timeout > 0.0", "ix.timer.expired"} <= V.symfacts(c) for c in idle)
         n += len(closes)
         ctx.check(ok, "T1-idle", f, "%s.serviceConnects closes only under ix.timeout > 0.0 and ix.timer.expired" % cn,
                   "a connection may be closed for idleness only when its own timeout is enabled and has elapsed")
     ctx.floor("T1-idle:closes", n, 2)
     cp = ctx.cls("http.serving", "Requestant").own_method("checkPersisted")
     P = FuncView(ctx, cp)
-    t = P.tests(lambda t: dotted(t) == "self.persisted")
     st = [s for s in P.cfg.nodes if isinstance(s.ast, ast.Assign) and dotted(s.ast.targets[0]) == "self.incomer.timeout"]
-    ok = bool(t) and len(st) == 1 and isinstance(st[0].ast.value, ast.Constant) and st[0].ast.value.value == 0.0 and P.dominated_by_edge(st, t[0], "T")
+    # the timeout is disabled exactly under "this request is persisted": the guard is self.persisted, or a local that is what
+    # self.persisted was just assigned from
+    pst = [s for s in P.cfg.nodes if isinstance(s.ast, ast.Assign) and dotted(s.ast.targets[0]) == "self.persisted"]
+    aliases = {"self.persisted"} | {dotted(s.ast.value) for s in pst if dotted(s.ast.value)}
+    ok = len(st) == 1 and isinstance(st[0].ast.value, ast.Constant) and st[0].ast.value.value == 0.0 and \
+        bool(P.facts(st[0]) & aliases) and P.facts(st[0]) <= aliases
     ctx.check(ok, "T9-persist", cp, "persisted => self.incomer.timeout = 0.0", "connections kept alive by HTTP persistence are not dropped by the idle timer")
